@@ -74,7 +74,9 @@ def isPyDecimal (s : String) : Bool := !s.isEmpty && s.toList.all isPyDigit
 def parsePythonVersion (v : String) : Except Err (Nat × Nat) :=
   match v.splitOn "." with
   | [a, b] =>
-    if isPyDecimal a ∧ isPyDecimal b then .ok (digitsValue a.toList, digitsValue b.toList)
+    if isPyDecimal a ∧ isPyDecimal b then
+      if digitsValue a.toList < 3 then .error (.refurb "refurb: Python versions below 3.0 are not supported")
+      else .ok (digitsValue a.toList, digitsValue b.toList)
     else .error (.refurb "refurb: version must be in form `x.y`")
   | _ => .error (.refurb "refurb: version must be in form `x.y`")
 
